@@ -68,6 +68,9 @@ class C03(common.Spec):
             return data.get('tag')
 
         def mk_cond(ev, result, inst):
+            if ins.get('cond_objects'):
+                # conditions answering with true / false VALUES that are not the bool singletons
+                result = (1 if inst else 'yes') if result else (None if inst else '')
             if inst:
                 def fn():
                     log.append(['cond', ev, True, tagnow()])
@@ -355,6 +358,7 @@ def gen_case(rng, nstates=None):
         on_enter=[s for s in states if rng.random() < 0.5],
         on_exit=[s for s in states if rng.random() < 0.5],
         on_notrans=rng.random() < 0.6,
+        cond_objects=rng.random() < 0.4,
         on_exit_bad=[s for s in states if rng.random() < 0.3] if rng.random() < 0.25 else [],
         # never the initial state: the FSM must get an output at all
         keep=[s for s in states[1:] if rng.random() < 0.5] if rng.random() < 0.3 else [])
